@@ -199,6 +199,14 @@ def _conversion_polarity(repo: Repo, m, conv):
     """False: the value itself (int / bool / identity); True: its negation; None: something else"""
     if isinstance(conv, ast.Name) and conv.id in ("int", "bool") and conv.id not in m.funcs:
         return False
+    # the operator module's spellings of `not x` / `bool(x)`
+    dotted = norm(conv)
+    if isinstance(conv, ast.Name) and conv.id in m.imports and m.imports[conv.id][0] == "operator":
+        dotted = "operator." + (m.imports[conv.id][1] or conv.id)
+    if dotted in ("operator.not_", "operator.__not__"):
+        return True
+    if dotted in ("operator.truth",):
+        return False
     body = None
     if isinstance(conv, ast.Lambda) and len(conv.args.args) == 1:
         p, body = conv.args.args[0].arg, conv.body
